@@ -21,6 +21,8 @@ Theorem zero_mean_centres : forall N D (X : @buf Qc),
   N <> 0%nat -> centred N D (zero_mean N X).
 Proof. exact zero_mean_centres_Qc. Qed.
 Print Assumptions zero_mean_centres.
+Example zero_mean_centres_nonvacuous : (@of_nat Qc _ 3%nat) <> 0%Qc.
+Proof. exact Tsne_Proof_Dense.zero_mean_centres_nonvacuous. Qed.
 
 (* computeSquaredEuclideanDistance after F10 (`+=`): DD[n,m] = |x_n - x_m|^2 *)
 Theorem sqdist_correct : forall D (X : @buf Qc) n m,
@@ -118,6 +120,9 @@ Theorem perplexity_row_sum : forall (expf logf : Q -> Q) (dbl_min : Q) self dd b
   (qsum (normalised ev) == 1 - dbl_min / e_sum ev)%Q.
 Proof. exact normalised_sum. Qed.
 Print Assumptions perplexity_row_sum.
+Example perplexity_row_sum_nonvacuous :
+  ~ (e_sum (evaluate (fun _ => 1%Q) (fun _ => 0%Q) 0 None [0; 0]%Q 1) == 0)%Q.
+Proof. exact normalised_sum_nonvacuous. Qed.
 
 (* H is the Shannon entropy of the stored row; the only fact used about the oracles is, at the kernel
    values of this row, log(exp(-beta d)/S) = -beta d - log S; DBL_MIN counted as 0; K-NN overload *)
@@ -161,6 +166,11 @@ Theorem K_fits : forall fl : Q -> Q,
   (0 <= K_of_Q fl perp <= N - 1)%Z.
 Proof. exact K_fits_thm. Qed.
 Print Assumptions K_fits.
+Example K_fits_nonvacuous :
+  (forall x y, x <= y -> (fun q : Q => q) x <= (fun q : Q => q) y)%Q /\
+  (forall z : Z, (fun q : Q => q) (inject_Z z) == inject_Z z)%Q /\
+  (0 <= 10)%Q /\ (3 * 10 <= inject_Z (31 - 1))%Q /\ K_of_Q (fun q => q) 10 = 30%Z.
+Proof. exact Tsne_Proof_K.K_fits_nonvacuous. Qed.
 
 (* binary64 (PrimFloat): the largest perplexity validate() accepts, fl((N-1)/3.0), gives
    exactly K = N - 1 for every N up to 5000 (finite domain, enumerated completely) *)
@@ -287,6 +297,8 @@ Theorem sparse_spec_decision_sound : forall N (p s : csr Q),
   forall r x, (r < N)%nat -> (x < N)%nat -> oq_eq (lookup s r x) (sym_entry Qplus qhalf p r x).
 Proof. exact sym_spec_b_sound. Qed.
 Print Assumptions sparse_spec_decision_sound.
+Example sparse_spec_decision_sound_nonvacuous : sym_spec_b 3 ex_p ex_s = true.
+Proof. exact sym_spec_b_accepts. Qed.
 
 Theorem sparse_spec_decision_complete : forall N (p s : csr Q),
   sym_spec Qplus qhalf N p s -> sym_spec_b N p s = true.
